@@ -77,6 +77,8 @@ pub enum Point<'a> {
         outbuf_len: usize,
         sealed: bool,
         n_slots: usize,
+        /// The timeout the blocking poll would have used.
+        timeout: Option<std::time::Duration>,
     },
     /// I/O thread, after `poll` returned `n_events` events.
     IoPolled { n_events: usize },
@@ -248,12 +250,13 @@ pub(crate) fn io_gate(
     n_slots: usize,
 ) -> Option<Option<std::time::Duration>> {
     if let Some(c) = controller() {
+        let saved = *timeout;
         c.point(Point::IoGate {
             outbuf_len,
             sealed,
             n_slots,
+            timeout: saved,
         });
-        let saved = *timeout;
         *timeout = Some(std::time::Duration::from_millis(0));
         Some(saved)
     } else {
